@@ -352,7 +352,7 @@ ALPHA = {
     "cache_control": ["max-age", "=", "5", '"', ",", " ", ";", "public", "x", "-", "\t", "\xe9", "1_0", "private",
                       "\xa0", "99999999999999999999"],
     "content_type": ["text/html", ";", " ", "charset", "=", "utf-8", '"', "x", "CHARSET", "a", ",", "\t", "ſ",
-                     "application/xml"],
+                     "application/xml", "\\", "-", "+"],
     "etag": ["W/", '"', "a", "\\", " ", ",", "*", "\t", "w/"],
     "str": ["a", " ", "\xe9", "€", ",", ";", '"'],
 }
@@ -449,8 +449,9 @@ def expect(kind, value, now):
         return ", ".join(toks) if not isinstance(value, str) else None, (lambda g: g == toks), repr(toks)
     if kind in ("date", "date_delta", "if_range"):
         if kind == "date_delta" and isinstance(value, (int, float)) and not isinstance(value, bool):
-            want = now + TD(seconds=int(value))
-            return str(int(value)), (lambda g: g == want), repr(want)
+            want = now + TD(seconds=int(value))          # the instant, as naive local wall-clock time ...
+            want_utc = EPOCH_AWARE + TD(seconds=int(time.mktime(now.timetuple())) + int(value))   # ... and as aware UTC
+            return str(int(value)), (lambda g: (g == want) if g.tzinfo is None else (g == want_utc)), repr(want_utc)
         if isinstance(value, TD):
             ts = int(time.mktime(now.timetuple())) + value.days * 86400 + value.seconds
         else:
@@ -745,8 +746,9 @@ def valid_values(kind, rng, n, bound):
     elif kind == "charset":
         out += [{"t": "str", "v": v} for v in ["utf-8", "UTF-8", "latin-1", "iso-8859-1", "x"]]
     elif kind == "ct_params":
-        vals = ["x", "a b", "a;b", "k=v", "\xe9", "A.b_c-d", "a,b", " "]
-        for k in ["a", "charset", "B2", "x1"]:
+        vals = ["x", "a b", "a;b", "k=v", "\xe9", "A.b_c-d", "a,b", " ", "svg+xml", "+", 'x"y', "p\\q", "\\", '"', '\\"', "a\\\"b\\",
+                "1.0+build7", "~", "a/b", "(c)", "x*", "%41", "q=0.5", "----=_Part_7+Qx"]
+        for k in ["a", "charset", "B2", "x1", "foo-bar", "x_y.z", "q+", "!#$%&'*^`|~"]:
             for v in vals:
                 out.append({"t": "dict", "v": {k: v}})
         for _ in range(n):
@@ -811,6 +813,8 @@ def date_cases(rng, n, tier_years):
     for s in [0, 1, 60, 3600, 86400, 86400 * 365, -3600]:
         for side, attr in DATE_ATTRS[:4] + DATE_ATTRS[5:6]:
             cases.append({"o": "rt", "side": side, "attr": attr, "value": {"t": "td", "v": s}})
+    for s in [0, 120, 86400, 10 ** 6]:
+        cases.append({"o": "self", "side": "resp", "attr": "retry_after", "value": {"t": "int", "v": s}})
     # canonical text -> instant
     for _ in range(n // 4 + 10):
         ts = rng.randrange(0, (DT(9999, 12, 31, 23, 59, 59) - EPOCH) // TD(seconds=1))
@@ -845,8 +849,9 @@ def o_crlf(case):
     try:
         setattr(r, attr, value)
     except ValueError:
-        if raw("resp", r, key) not in (before, ABSENT):
-            return ("crlf:%s:partial-write" % kind, "resp.%s = %r was refused but the header changed to %r" % (attr, value, raw("resp", r, key)))
+        if raw("resp", r, key) != before:
+            return ("crlf:refused-but-header-changed", "resp.%s = %r was refused but %s changed from %r to %r"
+                    % (attr, value, key, before, raw("resp", r, key)))
         return None
     except Exception as e:  # noqa
         return ("crlf:%s:wrong-exception" % kind, "resp.%s = %r raises %s instead of refusing with ValueError" % (attr, value, type(e).__name__))
@@ -1416,6 +1421,14 @@ def o_self(case):
                 r.cache_control = first.copy()
             else:
                 setattr(r, attr, first)
+            if kind == "date_delta" and case["value"]["t"] == "int":
+                # the datetime read for delta-seconds, assigned back, must still name now + delta
+                want = http_date(int(time.mktime(DT(*FIXED_NOW).timetuple())) + case["value"]["v"])
+                if raw(side, r, key) != want:
+                    return ("self-assign:date_delta:instant-shifts",
+                            "%s.%s = %d reads %r; assigning that value back stores %r, but now + %d s is %r (TZ=%s)"
+                            % (side, attr, case["value"]["v"], first, raw(side, r, key), case["value"]["v"], want, os.environ.get("TZ")))
+                return None
             obs2 = obs_value(kind, getattr(r, attr))
         except Exception as e:  # noqa
             return ("self-assign:%s:raises-%s" % (kind, type(e).__name__), "%s.%s = %s.%s raises %s: %s"
@@ -1461,6 +1474,17 @@ def short(v):
     return t if len(t) < 120 else t[:100] + "..."
 
 
+def o_emptylist(case):
+    Request, Response = webob()
+    r = Response()
+    setattr(r, case["attr"], dec(case["value"]))
+    got = getattr(r, case["attr"])
+    if got != ():
+        return ("roundtrip:list:empty-sequence", "resp.%s = %r stores %s: %r and reads back %r, not ()"
+                % (case["attr"], dec(case["value"]), RESP[case["attr"]][0], raw("resp", r, RESP[case["attr"]][0]), got))
+    return None
+
+
 def o_shape(case):
     """a value of an unusual shape / outside the modelled domain: either refused with one of the documented exception
     classes and nothing half-written, or accepted and then the views stay coherent: one CR/LF-free line (Response
@@ -1478,6 +1502,10 @@ def o_shape(case):
                 return ("shape:%s:raises-%s" % (kind, type(e).__name__), "%s.%s = %r raises %s: %s"
                         % (side, attr, short(case["value"]), type(e).__name__, str(e)[:80]))
             now_ = raw(side, r, key)
+            if type(e).__name__ == "ValueError" and side == "resp" and attr in HEADER_GETTER_FAMILY and isinstance(value, str) \
+                    and ("\n" in value or "\r" in value) and now_ != before:
+                return ("crlf:refused-but-header-changed", "resp.%s = %s was refused but %s changed from %r to %r"
+                        % (attr, short(case["value"]), key, before, now_))
             if now_ not in (before, ABSENT) and kind not in ("cache_control",):
                 return ("shape:%s:refused-but-written" % kind, "%s.%s = %r was refused (%s) but %s changed from %r to %r"
                         % (side, attr, short(case["value"]), type(e).__name__, key, before, now_))
@@ -1593,7 +1621,7 @@ def shapes_sweep(ctx):
 # ----------------------------------------------------------------------------------------------
 # dispatch, TZ workers, replay
 # ----------------------------------------------------------------------------------------------
-ORACLES = {"total": o_total, "rt": o_rt, "crlf": o_crlf, "cc": o_cc, "dtext": o_dtext, "hist": o_hist, "perm": o_perm, "self": o_self, "shape": o_shape}
+ORACLES = {"total": o_total, "rt": o_rt, "crlf": o_crlf, "cc": o_cc, "dtext": o_dtext, "hist": o_hist, "perm": o_perm, "self": o_self, "shape": o_shape, "emptylist": o_emptylist}
 
 
 def run_case(case):
@@ -1725,6 +1753,25 @@ def oracle_sweep(ctx):
             case = dict(case, tz=tz)
             for _ in range(cnt):
                 ctx.fail(k, what, case, True, "dates-" + tz)
+    # ---- content_type_params: every value of one or two visible ASCII characters (what the setter leaves unquoted
+    # must be what the getter's unquoted alternative reads; everything else goes through quoting)
+    vis = [chr(c) for c in range(32, 127)]
+    n = 0
+    for v in vis + [a + b for a in vis for b in vis]:
+        case = {"o": "rt", "side": "resp", "attr": "content_type_params", "value": {"t": "dict", "v": {"type": v}}, "init": "text/html"}
+        report(ctx, o_rt(case), case, "roundtrip")
+        n += 1
+    for k in vis:
+        if re.match(r"\A%s\Z" % TOKEN, k):
+            for kk in (k, "a" + k + "b"):
+                case = {"o": "rt", "side": "resp", "attr": "content_type_params", "value": {"t": "dict", "v": {kk: "v"}}, "init": "text/html"}
+                report(ctx, o_rt(case), case, "roundtrip")
+                n += 1
+    ctx.oracle_count("content-type-params-ascii", n, n)
+    # ---- an empty list of methods is a value of Allow (RFC 7231 7.4.1: Allow = #method)
+    for v in ({"t": "tuple", "v": []}, {"t": "list", "v": []}):
+        case = {"o": "emptylist", "attr": "allow", "value": v}
+        report(ctx, o_emptylist(case), case, "roundtrip")
     # ---- CR / LF
     n = 0
     for attr, (key, kind) in sorted(RESP.items()):
@@ -2570,11 +2617,22 @@ def corr_group5(ctx):
                    cases, in_type="str")
     for i in bad[:5]:
         ctx.broken.append("correspondence charset_re: scanner model and re disagree on %r" % cases[i][2]["text"][:100])
-    cases = [(cstr(t), [[m.group(1), m.group(2) or m.group(3) or ""] for m in wresp._PARAM_RE.finditer(t)], {"fn": "_PARAM_RE.finditer", "text": t})
-             for t in texts]
+    qp = getattr(wresp, "_QUOTED_PAIR_RE", None)
+
+    def pvalue(m):
+        g2 = m.group(2)
+        if g2 is not None and qp is not None:
+            g2 = qp.sub(r"\1", g2)
+        return g2 or m.group(3) or ""
+
+    ptexts = texts + [t for t in ['a="x\\"y"; b=1', 'a="p\\\\q"', 'a="\\', 'a="x\\', 'foo-bar=z; q+=1', 'a="b\\\nc"', "x_y.z=1;!#$=2", 'a="\\\\"; b="\\""']]
+    cases = [(cstr(t), [[m.group(1), pvalue(m)] for m in wresp._PARAM_RE.finditer(t)], {"fn": "_PARAM_RE.finditer", "text": t})
+             for t in ptexts]
     bad = ctx.corr("param_re", IMPORTS, "(fun s => dict_val (param_scan (S (@List.length N s)) s))", cases, in_type="str")
     for i in bad[:5]:
-        ctx.broken.append("correspondence param_re: scanner model and re disagree on %r" % cases[i][2]["text"][:100])
+        disagreement(ctx, "param_re", cases[i][2],
+                     [{"o": "rt", "side": "resp", "attr": "content_type_params", "value": {"t": "dict", "v": {"a": 'x"y'}}, "init": "text/html"},
+                      {"o": "rt", "side": "resp", "attr": "content_type_params", "value": {"t": "dict", "v": {"foo-bar": "z"}}, "init": "text/html"}])
     # Request content_type / charset
     Request, Response = webob()
 
@@ -2604,7 +2662,7 @@ def corr_group5(ctx):
             "content_type": [{"t": "str", "v": v} for v in ["text/html", "text/plain", "application/json", "application/xml", "image/svg+xml",
                                                             "application/atom+xml", "text/x; charset=a", "a/b; x=y", "", "image/png+xml"]]
             + [{"t": "none"}],
-            "content_type_params": [{"t": "dict", "v": d} for d in [{"a": "x"}, {"b": "p q", "a": "1"}, {"c": 'q"r'}, {"charset": "utf-8"},
+            "content_type_params": [{"t": "dict", "v": d} for d in [{"a": "x"}, {"b": "p q", "a": "1"}, {"c": 'q"r'}, {"charset": "utf-8"}, {"foo-bar": "p\\q"}, {"t": "svg+xml"},
                                                                     {}, {"B": ""}, {"a": "x\n"}, {"z": "\xe9"}]] + [{"t": "none"}]}
     cases = []
     for _ in range(ctx.scale(500, 6000)):
@@ -2753,13 +2811,39 @@ MODELLED = (
     + ["webob.response:Response." + n for n in _RESP_TABLE]
     + ["webob.request:BaseRequest." + n for n in _REQ_TABLE]
 )
-REGENERATED = []          # nothing is translated into coq/Gen; two source variants are read by source_cfg (model parameters)
+REGENERATED = ["webob.response:_PARAM_RE", "webob.response:_OK_PARAM_RE"]     # character classes -> coq/Gen/C12_ParamClasses.v
 ORACLE_ONLY = (["webob.descriptors:" + n for n in ("_rx_etag", "parse_etag_response", "serialize_etag_response", "serialize_if_range")]
                + ["webob.etag:" + n for n in ("etag_property", "ETagMatcher.parse", "IfRange.parse", "IfRangeDate")]
                + ["webob.response:Response.etag", "webob.response:Response.etag_strong", "webob.request:BaseRequest.if_range",
                   "webob.request:BaseRequest.if_match", "webob.request:BaseRequest.if_none_match"])
 
+def gen(ctx):
+    """coq/Gen/C12_ParamClasses.v: the character classes of the two Content-Type parameter regexes, read off the LIVE
+    compiled patterns (code points < 256): what the setter leaves unquoted, what the getter's unquoted alternative
+    accepts, what the getter accepts in a name.  Props/C12.v proves setter-unquoted is a subset of getter-unquoted and that the
+    hand-written classes of the model are these."""
+    from webob import response as wresp
+    cps = range(256)
+    setter = [c for c in cps if wresp._OK_PARAM_RE.search(chr(c)) and chr(c) != "\n"]
+    getter = []
+    keys = []
+    for c in cps:
+        m = wresp._PARAM_RE.fullmatch("a=" + chr(c))
+        if m and m.group(3) == chr(c):
+            getter.append(c)
+        m = wresp._PARAM_RE.fullmatch(chr(c) + "=")
+        if m and m.group(1) == chr(c):
+            keys.append(c)
+    txt = ("(* REGENERATED by harness/props/c12.py gen() from webob.response._OK_PARAM_RE / _PARAM_RE -- do not edit *)\n"
+           "From Coq Require Import NArith List.\nImport ListNotations.\nLocal Open Scope N_scope.\n"
+           "Definition setter_unquoted : list N := [%s].\nDefinition getter_unquoted : list N := [%s].\n"
+           "Definition getter_name : list N := [%s].\n"
+           % ("; ".join(map(str, setter)), "; ".join(map(str, getter)), "; ".join(map(str, keys))))
+    fw.write_if_changed(os.path.join(fw.COQ, "Gen", "C12_ParamClasses.v"), txt)
+
+
 def run(ctx):
+    gen(ctx)
     ctx.modelled(MODELLED)
     ctx.extra["regenerated_from_source"] = REGENERATED
     ctx.extra["oracle_only"] = ORACLE_ONLY
